@@ -470,7 +470,7 @@ func c04SigGen(rt *rapid.T) c04SigCase {
 	c := c04SigCase{}
 	c.Strict = rapid.IntRange(0, 9).Draw(rt, "strict") < 9
 	c.TolMs = rapid.SampledFrom([]int64{1000, 2000, 5000, 60000, 3600000, 3600000, 1500, 2999, 0,
-		1, 999, 30 * 86400 * 1000, 100 * 365 * 86400 * 1000, 9223372036854}).Draw(rt, "tol")
+		1, 999, 30 * 86400 * 1000, 100 * 365 * 86400 * 1000, 9223372036854, 1<<31 - 1, 1 << 31, 1 << 32, (1 << 31) * 1000, (1 << 32) * 1000}).Draw(rt, "tol")
 	if rapid.IntRange(0, 3).Draw(rt, "frac") == 0 {
 		c.NowMs = rapid.SampledFrom([]int{1, 250, 500, 999}).Draw(rt, "nowms")
 	}
@@ -504,7 +504,7 @@ func c04SigGen(rt *rapid.T) c04SigCase {
 				// canonical decimal integers of every magnitude (946684800 = the bubble's start)
 				st.Abs = rapid.SampledFrom([]string{"0", "1", "-1", "946684800", "2147483647", "2147483648", "4294967296", "-2147483649",
 					"9007199254740993", "9223372036854775807", "-9223372036854775808", "9223372036854775808", "-9223372036854775809",
-					"18446744073709551616", "4102444800", "-2208988800"}).Draw(rt, "abs")
+					"18446744073709551616", "4102444800", "-2208988800", "4294967295", "-2147483648", "-4294967296", "2147483647000", "4294967296000"}).Draw(rt, "abs")
 			}
 			r := st.Req
 			lastValid = &r
